@@ -754,3 +754,206 @@ Proof.
     (try assumption; intro x; unfold vgattr_enc; rewrite !app_length, enc_len_u16; lia).
   do 2 step. rewrite !Z.eqb_refl. reflexivity.
 Qed.
+
+(* ================================================================================================== *)
+(** * 5. The decidable checks imply the declarative well-formedness; the chain walk *)
+
+Lemma sub_bounds : forall img off len l, sub img off len = Some l ->
+  0 <= off /\ 0 <= len /\ off + len <= zlen img /\ l = firstn (Z.to_nat len) (skipn (Z.to_nat off) img).
+Proof.
+  intros img off len l H. unfold sub in H.
+  destruct (off <? 0) eqn:A; [discriminate|]. destruct (len <? 0) eqn:B; [discriminate|].
+  destruct (zlen img <? off + len) eqn:C; [discriminate|]. simpl in H. inversion H.
+  apply Z.ltb_ge in A, B, C. repeat split; lia.
+Qed.
+
+Lemma p_block_facts : forall img off b, p_block img off = Some b ->
+  blk_off b = off /\ 0 < blk_ndds b /\ 0 <= off /\ off + blkhdr_size + blk_ndds b * dd_size <= zlen img.
+Proof.
+  intros img off b H. unfold p_block in H.
+  destruct (sub img off blkhdr_size) as [hdr|] eqn:S1; [|discriminate].
+  destruct (p_i16 hdr) as [[n r]|]; [|discriminate].
+  destruct (p_i32 r) as [[nx r']|]; [|discriminate].
+  destruct (n <=? 0) eqn:N; [discriminate|]. apply Z.leb_gt in N.
+  destruct (sub img (off + blkhdr_size) (n * dd_size)) as [body|] eqn:S2; [|discriminate].
+  destruct (p_rep p_dd (Z.to_nat n) body) as [[dds r'']|]; [|discriminate].
+  inversion H; subst; clear H. cbn [blk_off blk_ndds].
+  apply sub_bounds in S1. apply sub_bounds in S2. repeat split; lia.
+Qed.
+
+Lemma walk_chain : forall fuel img off bl, walk fuel img off = Some bl -> chain img off bl.
+Proof.
+  induction fuel; intros img off bl H; simpl in H; [discriminate|].
+  destruct (p_block img off) as [b|] eqn:P; [|discriminate].
+  destruct (blk_next b =? 0) eqn:N.
+  - inversion H; subst. apply chain_last; [assumption | apply Z.eqb_eq; assumption].
+  - destruct (walk fuel img (blk_next b)) as [rest|] eqn:W; [|discriminate].
+    inversion H; subst. apply chain_cons; [assumption | apply Z.eqb_neq; assumption | apply IHfuel; assumption].
+Qed.
+
+Lemma walk_length : forall fuel img off bl, walk fuel img off = Some bl -> (List.length bl <= fuel)%nat.
+Proof.
+  induction fuel; simpl; intros img off bl H; [discriminate|].
+  destruct (p_block img off) as [b|]; [|discriminate].
+  destruct (blk_next b =? 0).
+  - inversion H; subst; simpl; lia.
+  - destruct (walk fuel img (blk_next b)) as [rest|] eqn:E; [|discriminate].
+    inversion H; subst; simpl. apply IHfuel in E. lia.
+Qed.
+
+(** more fuel never changes an answer *)
+Lemma walk_fuel_mono : forall fuel img off bl k, walk fuel img off = Some bl -> walk (fuel + k) img off = Some bl.
+Proof.
+  induction fuel; intros img off bl k H; simpl in H; [discriminate|]. simpl.
+  destruct (p_block img off) as [b|]; [|discriminate].
+  destruct (blk_next b =? 0); [assumption|].
+  destruct (walk fuel img (blk_next b)) as [rest|] eqn:W; [|discriminate].
+  rewrite (IHfuel _ _ _ k W). assumption.
+Qed.
+
+(** following the "next" pointers *)
+Definition next_off (img : image) (off : Z) : option Z :=
+  match p_block img off with
+  | Some b => if blk_next b =? 0 then None else Some (blk_next b)
+  | None => None
+  end.
+Fixpoint follow (n : nat) (img : image) (off : Z) : option Z :=
+  match n with O => Some off | S k => match next_off img off with Some o => follow k img o | None => None end end.
+
+Lemma walk_follow : forall n fuel img off off' bl, follow n img off = Some off' -> walk fuel img off = Some bl ->
+  exists bl', walk (fuel - n) img off' = Some bl' /\ (n <= fuel)%nat.
+Proof.
+  induction n; intros fuel img off off' bl F W.
+  - simpl in F. inversion F; subst. rewrite Nat.sub_0_r. exists bl. split; [assumption | lia].
+  - simpl in F. unfold next_off in F. destruct fuel; simpl in W; [discriminate|].
+    destruct (p_block img off) as [b|]; [|discriminate].
+    destruct (blk_next b =? 0); [discriminate|].
+    destruct (walk fuel img (blk_next b)) as [rest|] eqn:W'; [|discriminate].
+    destruct (IHn fuel img (blk_next b) off' rest F W') as [bl' [A B]].
+    exists bl'. split; [simpl; assumption | lia].
+Qed.
+
+(** a chain that runs into a cycle is rejected whatever the fuel: the walk cannot be fooled into looping *)
+Lemma walk_cycle_none : forall img off n, (0 < n)%nat -> follow n img off = Some off ->
+  forall fuel, walk fuel img off = None.
+Proof.
+  intros img off n Hn F fuel. induction fuel as [fuel IH] using lt_wf_ind.
+  destruct (walk fuel img off) as [bl|] eqn:W; [|reflexivity].
+  destruct (walk_follow n fuel img off off bl F W) as [bl' [A B]].
+  rewrite (IH (fuel - n)%nat) in A by lia. discriminate.
+Qed.
+
+Lemma pairwise_sound : forall {A} (ok : A -> A -> bool) l, pairwise ok l = true ->
+  ForallOrdPairs (fun a b => ok a b = true) l.
+Proof.
+  induction l; intro H; simpl in H; [constructor|].
+  apply andb_true_iff in H. destruct H as [H1 H2]. constructor; [|auto].
+  apply Forall_forall. intros x Hx. apply (proj1 (forallb_forall _ _) H1 x Hx).
+Qed.
+
+Lemma FOP_impl : forall {A} (P Q : A -> A -> Prop) l, (forall a b, P a b -> Q a b) ->
+  ForallOrdPairs P l -> ForallOrdPairs Q l.
+Proof.
+  intros A P Q l HPQ H. induction H; constructor; [|assumption].
+  eapply Forall_impl; [|eassumption]. intros; auto.
+Qed.
+
+Lemma FOP_map : forall {A B} (f : A -> B) (R : B -> B -> Prop) l,
+  ForallOrdPairs (fun a b => R (f a) (f b)) l -> ForallOrdPairs R (map f l).
+Proof.
+  intros A B f R l H. induction H; simpl; constructor; [|assumption].
+  apply Forall_forall. intros y Hy. apply in_map_iff in Hy. destruct Hy as [x [E Hx]]. subst y.
+  eapply Forall_forall in H; eauto.
+Qed.
+
+Lemma strictly_apart_sound : forall a b, strictly_apart a b = true -> apart a b.
+Proof.
+  intros [o1 n1] [o2 n2] H. unfold strictly_apart in H. unfold apart; simpl.
+  apply orb_true_iff in H. destruct H as [H|H]; apply Z.leb_le in H; lia.
+Qed.
+
+Lemma ranges_ok_sound : forall a b, ranges_ok a b = true -> apart_or_alias a b.
+Proof.
+  intros [o1 n1] [o2 n2] H. unfold ranges_ok in H. unfold apart_or_alias, apart; simpl.
+  repeat (apply orb_true_iff in H; destruct H as [H|H]); try (apply Z.leb_le in H; lia).
+  apply andb_true_iff in H. destruct H as [A B]. apply Z.eqb_eq in A, B. subst. right. right. right. reflexivity.
+Qed.
+
+Lemma key_differs_sound : forall a b, key_differs a b = true -> ~ same_key a b.
+Proof.
+  intros a b H [A B]. unfold key_differs in H. rewrite A, B, !Z.eqb_refl in H. discriminate.
+Qed.
+
+Lemma extent_ok_sound : forall img d, extent_ok img d = true -> in_image img d.
+Proof.
+  intros img d H. unfold extent_ok in H. unfold in_image.
+  apply orb_true_iff in H. destruct H as [H|H].
+  - apply andb_true_iff in H. destruct H as [A B]. apply Z.eqb_eq in A, B. left. tauto.
+  - apply andb_true_iff in H. destruct H as [H C]. apply andb_true_iff in H. destruct H as [A B].
+    apply Z.leb_le in A, B, C. right. tauto.
+Qed.
+
+Lemma chain_blocks : forall img off bl, chain img off bl ->
+  Forall (fun b => 0 < blk_ndds b /\ 0 <= blk_off b /\ blk_off b + snd (blk_extent b) <= zlen img) bl.
+Proof.
+  intros img off bl H. induction H.
+  - constructor; [|constructor]. apply p_block_facts in H. unfold blk_extent; cbn [snd fst]. unfold blkhdr_size, dd_size in *. lia.
+  - constructor; [|assumption]. apply p_block_facts in H. unfold blk_extent; cbn [snd fst]. unfold blkhdr_size, dd_size in *. lia.
+Qed.
+
+Lemma apart_distinct_offsets : forall bl,
+  Forall (fun b => 0 < blk_ndds b) bl -> ForallOrdPairs apart (map blk_extent bl) -> NoDup (map blk_off bl).
+Proof.
+  induction bl as [|a bl IH]; intros Hp H; simpl; [constructor|].
+  inversion Hp; subst. simpl in H. inversion H; subst. constructor; [|auto].
+  intro Hin. apply in_map_iff in Hin. destruct Hin as [b [E Hb]].
+  assert (apart (blk_extent a) (blk_extent b)) as Ap.
+  { eapply Forall_forall in H4; [exact H4|]. apply in_map. assumption. }
+  eapply Forall_forall in H3; [|exact Hb]. unfold apart, blk_extent, blkhdr_size, dd_size in Ap; cbn [fst snd] in Ap. lia.
+Qed.
+
+Lemma magic_check : forall m, List.length m = 4%nat ->
+  forallb (fun p => fst p =? snd p) (combine m magic) = true -> m = magic.
+Proof.
+  intros m L H. destruct m as [|a [|b [|c [|d [|e m]]]]]; try discriminate.
+  simpl in H. repeat (apply andb_true_iff in H; destruct H as [?H H]).
+  repeat match goal with E : (_ =? _) = true |- _ => apply Z.eqb_eq in E end. subst. reflexivity.
+Qed.
+
+Theorem wf_check_sound : forall ext_file inflate img,
+  wf_check ext_file inflate img = true -> WellFormed ext_file inflate img.
+Proof.
+  intros ext_file inflate img H. unfold wf_check in H.
+  destruct (parse_file img) as [bl|] eqn:P; [|discriminate].
+  apply andb_true_iff in H; destruct H as [H C3]. apply andb_true_iff in H; destruct H as [H C].
+  apply andb_true_iff in H; destruct H as [H C0]. apply andb_true_iff in H; destruct H as [H C1].
+  apply andb_true_iff in H; destruct H as [H C2].
+  exists bl. split; [exact P|].
+  unfold parse_file in P. destruct (sub img 0 4) as [m|] eqn:S; [|discriminate].
+  destruct (forallb (fun p => fst p =? snd p) (combine m magic)) eqn:M; [|discriminate].
+  pose proof (walk_chain _ _ _ _ P) as Ch. pose proof (chain_blocks _ _ _ Ch) as Bl.
+  unfold chk_blocks in H. apply pairwise_sound in H.
+  apply (FOP_impl _ apart _ strictly_apart_sound) in H.
+  split; [|split].
+  - constructor.
+    + apply sub_bounds in S. destruct S as (_ & _ & L & E).
+      change (Z.to_nat 0) with 0%nat in E. change (Z.to_nat 4) with 4%nat in E. cbn [skipn] in E. subst m.
+      apply magic_check in M; [exact M|]. rewrite firstn_length. unfold zlen in L. lia.
+    + exact Ch.
+    + inversion H; subst. apply apart_distinct_offsets; [|assumption].
+      eapply Forall_impl; [|exact Bl]. intros a (A1 & A2 & A3). exact A1.
+    + exact H.
+    + eapply Forall_impl; [|exact Bl]. intros a (A1 & A2 & A3). split; assumption.
+    + unfold chk_nodup in C2. apply pairwise_sound in C2. eapply FOP_impl; [|exact C2]. apply key_differs_sound.
+    + unfold chk_extents in C1. apply Forall_forall. intros d Hd. apply extent_ok_sound.
+      apply (proj1 (forallb_forall _ _) C1 d Hd).
+    + unfold chk_overlap in C0. apply andb_true_iff in C0. destruct C0 as [A _].
+      apply pairwise_sound in A. eapply FOP_impl; [|exact A]. apply ranges_ok_sound.
+    + unfold chk_overlap in C0. apply andb_true_iff in C0. destruct C0 as [_ B].
+      apply Forall_forall. intros b Hb. apply Forall_forall. intros e He.
+      pose proof (proj1 (forallb_forall _ _) B b Hb) as B1. cbv beta in B1.
+      pose proof (proj1 (forallb_forall _ _) B1 e He) as B2. unfold apart_or_empty in B2.
+      apply orb_true_iff in B2. destruct B2 as [B2|B2]; [left; apply Z.leb_le; assumption | right; apply strictly_apart_sound; assumption].
+  - unfold chk_special in C. apply Forall_forall. intros d Hd. apply (proj1 (forallb_forall _ _) C d Hd).
+  - unfold chk_vrecords in C3. apply Forall_forall. intros d Hd. apply (proj1 (forallb_forall _ _) C3 d Hd).
+Qed.
